@@ -35,6 +35,23 @@ _WREQ = ["From Coq Require Import List NArith Bool.", "From Coq.Strings Require 
          "From MS Require Import Base.Bytes Base.Outcome Base.Prog Webp.Container Webp.Vp8l Webp.ContainerProofsTotal Webp.Vp8lProofsTop Props.C09w.",
          "Open Scope N_scope."]
 REQUIRES_FOR = {n: _WREQ for n in ("C09_webp_container_no_panic", "C09_webp_container_terminates", "C09_webp_lossless_total", "C09_webp_lossless_total_wide", "C09_webp_no_panic", "C09_webp_terminates")}
+_AREQ = ["From Coq Require Import List NArith ZArith Bool.",
+         "From MS Require Import Base.Bytes Base.Outcome Base.Cursor Base.Adapters Base.Async Base.AsyncSpec Base.AsyncSan Base.StackReader "
+         "Base.StackSpec Mp4.Header Mp4.San Gen.Consts Props.C09a.", "From MS Require Base.Prog.", "Open Scope N_scope."]
+THEOREMS = list(THEOREMS) + [
+    ("C09_mp4_async_total", """forall (cfg : config) (fuel : nat) (st : stk) (data : bytes) (sc : sch),
+  stk_ok st -> blen data <= I64MAX ->
+  max_metadata_size cfg < 4294967296 ->
+  (forall t, cumulative_mdat_box_size cfg = Some t -> t <= U32MAX) ->
+  (N.to_nat (blen data / 8) < fuel)%nat ->
+  exists r s' sc',
+    run_san_sched BOXHEADER_MAX_SIZE (pending_reader (stk_reader U64MAXN st)) (sanitize_prog cfg fuel) (stack_init U64MAXN st data) sc
+      = Some (r, s', sc') /\\
+    (forall n, r <> Panic n) /\\ r <> OutOfFuel"""),
+]
+REQUIRES_FOR = dict(REQUIRES_FOR, C09_mp4_async_total=_AREQ)
+COQ_TARGETS = list(COQ_TARGETS) + ["theories/Props/C09a.vo"]
+COQCHK = list(COQCHK) + ["MS.Props.C09a"]
 XCHECK_N = 0
 EXHAUSTIVE = {"quick": False, "thorough": False}
 NOTES = ["partial by nature: the theorems are about the modelled logic (every unwrap/unreachable!/assert!/overflow/slice-bound site of the code is a "
